@@ -269,7 +269,48 @@ def rule_nop_statement_pristine(ctx):
     rule_constant_nodes(ctx, "C16.c")
 
 
+def rule_patterns_reusable(ctx):
+    """C16.d: the configured patterns are consulted for *every* statement of the connection: what the constructor stores for them
+    can be iterated again and again (a list / tuple, or the caller's own object) — not a generator or other one-shot iterator,
+    which the first statement exhausts (every later matching statement is then really executed)."""
+    from ..connectmodel import ConnectHooks, Point
+    from ..values import Gen, OneShot
+
+    prog = ctx.prog
+    PAT = Const("^CALL\\s")
+    given = Lst([PAT])
+    pt = Point(True, "user", True, True, False, False, False)
+    n = 0
+
+    def run(I):
+        duck = Obj("duck", kind="duck")
+        conn = I.construct(ClsRef("fakesnow.conn.FakeSnowflakeConnection"),
+                           [duck, Sym("database", typ="str", truthy=True), Sym("schema", typ="str", truthy=True)],
+                           {"create_database": Const(True), "create_schema": Const(True), "db_path": Const(None), "nop_regexes": given}, None)
+        I.refresh_properties(conn, ("nop_regexes",))
+        return conn
+
+    for p in explore(prog, lambda: ConnectHooks(pt), run, max_paths=64):
+        conn = p.value
+        if p.outcome != "return" or not isinstance(conn, Obj):
+            continue
+        n += 1
+        v = conn.attrs.get("nop_regexes")
+        if v is None:  # kept in a record the connection owns
+            v = next((w.attrs["nop_regexes"] for w in conn.attrs.values() if isinstance(w, Obj) and w.kind != "duck" and "nop_regexes" in w.attrs), None)
+        one_shot = isinstance(v, (Gen, OneShot)) or (isinstance(v, Sym) and v.origin and v.origin[0] == "call" and str(v.origin[1]) in (
+            "iter", "map", "filter", "zip", "builtins.iter", "builtins.map", "builtins.filter", "builtins.zip", "itertools.chain"))
+        ctx.ob("C16.d", "the connection keeps its nop patterns in something every statement can iterate", not one_shot, "fakesnow/conn.py", tagof(v)[:60] if v is not None else "")
+        if one_shot:
+            ctx.violation("C16.d", "conn", "FakeSnowflakeConnection.__init__", "nop patterns stored as a one-shot iterator", "fakesnow/conn.py",
+                          f"the connection stores its nop_regexes as `{tagof(v)[:60]}` — an iterator that is exhausted by the first statement that "
+                          f"walks it: from then on no statement matches any more and statements the user asked to be no-ops are really executed")
+        break
+    ctx.floor("C16.d constructor paths", n, 1)
+
+
 RULES = [
+    ("C16.d", rule_patterns_reusable, ("quick", "thorough")),
     ("C16.a", rule_execute_string, ("quick", "thorough")),
     ("C16.b", rule_nop, ("quick", "thorough")),
     ("C16.c", rule_nop_statement_pristine, ("quick", "thorough")),
